@@ -104,7 +104,10 @@ class MemPerDocWriter(base.PerDocWriterWithColumns):
             self._lengths[fieldname] = length
 
     def add_vector_items(self, fieldname, fieldobj, items):
-        self._vectors[fieldname] = tuple(items)
+        items = tuple(items)
+        if items:
+            # (like the on-disk codec, don't record an empty vector)
+            self._vectors[fieldname] = items
 
     def finish_doc(self):
         with self._segment._lock:
